@@ -9,6 +9,7 @@ Everything is `Nat`; `u32`/`u64` operators of the source are modelled by the ope
 ideal values are in range.
 -/
 import DdsModel.Mach
+import DdsModel.SrcConsts
 namespace Dds
 
 /-! ## options -/
@@ -200,14 +201,17 @@ def SplitView.fragmentRows {ρ : Type} (s : SplitView) (img : List ρ) (i : Nat)
 `new_bi_planar` (no split height); `fragment_size` is that of the first encoder of the set
 (`EntireImage` unless `with_fragment_size`), `dithering` the union of the encoders' dither flags. -/
 
-/-- `BC1_FRAGMENT_SIZE = new(64*64, 16*16, 16*16)` -/
-def bc1Frag : FragSize := .ofLog2 12 8 8
+/-- `BC1_FRAGMENT_SIZE = new(64*64, 16*16, 16*16)` at the pinned commit; the exponents are regenerated from the source -/
+def bc1Frag : FragSize :=
+  .ofLog2 SrcConsts.BC1_FRAG_LOG2_FAST SrcConsts.BC1_FRAG_LOG2_HIGH SrcConsts.BC1_FRAG_LOG2_UNREASONABLE
 /-- `BC4_FRAGMENT_SIZE = new(64*64, 32*32, 8*8)` -/
-def bc4Frag : FragSize := .ofLog2 12 10 6
+def bc4Frag : FragSize :=
+  .ofLog2 SrcConsts.BC4_FRAG_LOG2_FAST SrcConsts.BC4_FRAG_LOG2_HIGH SrcConsts.BC4_FRAG_LOG2_UNREASONABLE
 /-- `BC3_FRAGMENT_SIZE = BC1_FRAGMENT_SIZE.combine(BC4_FRAGMENT_SIZE)` -/
 def bc3Frag : FragSize := bc1Frag.combine bc4Frag
 /-- `BC7_FRAGMENT_SIZE = new(16*16, 16*16, 16*16)` -/
-def bc7Frag : FragSize := .ofLog2 8 8 8
+def bc7Frag : FragSize :=
+  .ofLog2 SrcConsts.BC7_FRAG_LOG2_FAST SrcConsts.BC7_FRAG_LOG2_HIGH SrcConsts.BC7_FRAG_LOG2_UNREASONABLE
 
 def supPlain (d : Dithering) : Support := ⟨d, some 1, false, .entireImage⟩
 def supBc (d : Dithering) (f : FragSize) : Support := ⟨d, some 4, true, f⟩
